@@ -113,6 +113,7 @@ class Model:
             except SyntaxError as e:  # a tree that does not compile is not analysable
                 raise AnalysisError(f"{path}: syntax error {e}")
             parsed.append((modname, path, source, tree))
+        self.flattened = self._flatten_private_imports(parsed)
         from .desugar import desugar_module, exported_generators
         # generator helpers one module imports from another are expanded like its own, provided every global name their code
         # mentions means the same thing in the importing module
@@ -159,6 +160,142 @@ class Model:
         for c in self.classes.values():
             c.mro = self._c3(c.qualname)
             c.is_enum = any(b.split(".")[-1] in ("Enum", "IntEnum", "Flag", "IntFlag") for b in c.mro)
+
+    def _flatten_private_imports(self, parsed) -> Dict[str, List[str]]:
+        """Private helpers one module imports from another (`from ._util import _is_context_tag`, a helper moved next to the code
+        it belongs with) are copied into the importing module's tree, with the module-level names they use: every analysis that
+        follows a helper within a module then follows these too.  Only functions and plain assignments are copied - never
+        classes (their identity matters) - and only when every name they mention can mean the same thing in the importing
+        module.  Copies keep the line numbers of the defining module."""
+        import builtins
+        trees = {m: t for m, _p, _s, t in parsed}
+        defs: Dict[str, Dict[str, ast.stmt]] = {}
+        classes: Dict[str, Set[str]] = {}
+        raw: Dict[str, Dict[str, tuple]] = {}
+        helper: Dict[str, bool] = {}
+        for m, t in trees.items():
+            d: Dict[str, ast.stmt] = {}
+            counts: Dict[str, int] = {}
+            cl: Set[str] = set()
+            rw: Dict[str, tuple] = {}
+            for n in t.body:
+                if isinstance(n, (ast.FunctionDef, ast.AsyncFunctionDef)):
+                    counts[n.name] = counts.get(n.name, 0) + 1
+                    d[n.name] = n
+                elif isinstance(n, ast.ClassDef):
+                    cl.add(n.name)
+                    counts[n.name] = counts.get(n.name, 0) + 1
+                elif isinstance(n, (ast.Assign, ast.AnnAssign, ast.AugAssign)):
+                    for nm in self._targets(n):
+                        counts[nm] = counts.get(nm, 0) + 1
+                        if isinstance(n, (ast.Assign, ast.AnnAssign)) and n.value is not None and \
+                                (len(n.targets) == 1 and isinstance(n.targets[0], ast.Name) if isinstance(n, ast.Assign) else isinstance(n.target, ast.Name)):
+                            d[nm] = n
+                elif isinstance(n, ast.ImportFrom):
+                    base = self._abs_module(m, n.module, n.level)
+                    for a in n.names:
+                        rw[a.asname or a.name] = ("from", base, a.name)
+                elif isinstance(n, ast.Import):
+                    for a in n.names:
+                        rw[a.asname or a.name.split(".")[0]] = ("import", a.name, a.asname)
+            defs[m] = {k: v for k, v in d.items() if counts.get(k) == 1}
+            classes[m] = cl
+            raw[m] = rw
+            helper[m] = m != PKG and not any(not c.startswith("_") for c in cl)
+
+        def free_names(node: ast.stmt) -> Set[str]:
+            if isinstance(node, (ast.FunctionDef, ast.AsyncFunctionDef)):
+                a = node.args
+                local = {x.arg for x in a.posonlyargs + a.args + a.kwonlyargs} | ({a.vararg.arg} if a.vararg else set()) | ({a.kwarg.arg} if a.kwarg else set())
+                local |= {x.id for x in ast.walk(node) if isinstance(x, ast.Name) and isinstance(x.ctx, (ast.Store, ast.Del))}
+                local |= {x.name for x in ast.walk(node) if isinstance(x, (ast.FunctionDef, ast.AsyncFunctionDef, ast.ClassDef)) and x is not node}
+                local |= {y.arg for x in ast.walk(node) if isinstance(x, ast.Lambda) for y in x.args.args}
+                local |= {x.name for x in ast.walk(node) if isinstance(x, ast.ExceptHandler) and x.name}
+                if any(isinstance(x, (ast.Global, ast.Nonlocal)) for x in ast.walk(node)):
+                    return {"<global>"}
+                return {x.id for x in ast.walk(node) if isinstance(x, ast.Name) and isinstance(x.ctx, ast.Load)} - local
+            val = node.value
+            return {x.id for x in ast.walk(val) if isinstance(x, ast.Name)} | \
+                   ({x.id for x in ast.walk(node.annotation) if isinstance(x, ast.Name)} if isinstance(node, ast.AnnAssign) else set())
+
+        done: Dict[str, List[str]] = {}
+        for T, tree in trees.items():
+            bound = set(defs[T]) | classes[T] | set(raw[T]) | {nm for n in tree.body if isinstance(n, (ast.Assign, ast.AnnAssign, ast.AugAssign)) for nm in self._targets(n)}
+            for node in list(tree.body):
+                if not isinstance(node, ast.ImportFrom):
+                    continue
+                M = self._abs_module(T, node.module, node.level)
+                if M not in trees or M == T:
+                    continue
+                for alias in list(node.names):
+                    n = alias.name
+                    if alias.asname not in (None, n) or n not in defs[M] or not (n.startswith("_") or helper[M]):
+                        continue
+                    if isinstance(defs[M][n], (ast.FunctionDef, ast.AsyncFunctionDef)) and defs[M][n].decorator_list and \
+                            [ast.unparse(d_).split(".")[-1] for d_ in defs[M][n].decorator_list] != ["contextmanager"]:
+                        continue
+                    copy_names: List[str] = []
+                    imports: Dict[str, tuple] = {}
+                    ok = True
+                    todo = [n]
+                    while todo and ok:
+                        x = todo.pop()
+                        if x in copy_names:
+                            continue
+                        copy_names.append(x)
+                        for r in sorted(free_names(defs[M][x])):
+                            if hasattr(builtins, r) or r in copy_names:
+                                continue
+                            if r in defs[M]:
+                                if r.startswith("_") or helper[M] or not isinstance(defs[M][r], (ast.FunctionDef, ast.AsyncFunctionDef)):
+                                    todo.append(r)
+                                else:
+                                    imports[r] = ("from", M, r)
+                            elif r in classes[M]:
+                                imports[r] = ("from", M, r)
+                            elif r in raw[M]:
+                                imports[r] = raw[M][r]
+                            else:
+                                ok = False
+                    # every name brought along must be free in T or already mean the same thing there
+                    for x in copy_names:
+                        if x != n and x in bound and raw[T].get(x) != ("from", M, x):
+                            ok = False
+                    for r, org in imports.items():
+                        if r in bound and raw[T].get(r) != org:
+                            ok = False
+                    if not ok:
+                        continue
+                    node.names.remove(alias)
+                    at = max((i for i, b in enumerate(tree.body) if isinstance(b, (ast.Import, ast.ImportFrom))), default=-1) + 1
+                    new_nodes: List[ast.stmt] = []
+                    for r, org in imports.items():
+                        if r in bound:
+                            continue
+                        if org[0] == "from":
+                            new_nodes.append(ast.ImportFrom(module=org[1], names=[ast.alias(name=org[2], asname=r if r != org[2] else None)], level=0))
+                        else:
+                            new_nodes.append(ast.Import(names=[ast.alias(name=org[1], asname=org[2])]))
+                        raw[T][r] = org
+                        bound.add(r)
+                    for x in reversed(copy_names):
+                        if x in bound and x != n:
+                            # already imported from M under the same name: that import is replaced by the copy
+                            for other in tree.body:
+                                if isinstance(other, ast.ImportFrom) and self._abs_module(T, other.module, other.level) == M:
+                                    other.names = [a_ for a_ in other.names if (a_.asname or a_.name) != x]
+                        new_nodes.append(copy.deepcopy(defs[M][x]))
+                        defs[T][x] = new_nodes[-1]
+                        raw[T].pop(x, None)
+                        bound.add(x)
+                    for nn in new_nodes:
+                        if not hasattr(nn, "lineno"):
+                            ast.copy_location(nn, node)
+                        ast.fix_missing_locations(nn)
+                    tree.body[at:at] = new_nodes
+                    done.setdefault(T, []).append(f"{M}.{n}")
+            tree.body[:] = [b for b in tree.body if not (isinstance(b, ast.ImportFrom) and not b.names)]
+        return done
 
     def _scan_module(self, m: ModuleInfo) -> None:
         for node in m.tree.body:
